@@ -439,6 +439,20 @@ def apply_op(fam, m, op, state):
         Xf = f.Xf
         yf = f.yf
         m.get_fantasy_model(list(Xf) if isinstance(Xf, tuple) else Xf, yf)
+    elif op == "fantasy_train":
+        # a fantasy model is created and TRAINED (one optimiser step on its own parameters): nothing of the source may move
+        if m.prediction_strategy is None:
+            predict(m, f.xs)
+        fm = m.get_fantasy_model(list(f.Xf) if isinstance(f.Xf, tuple) else f.Xf, f.yf)
+        fm.train()
+        fm.likelihood.train()
+        params = [p_ for p_ in {id(p): p for p in list(fm.parameters()) + list(fm.likelihood.parameters())}.values() if p_.requires_grad]
+        opt = torch.optim.SGD(params, lr=0.1)
+        opt.zero_grad()
+        mll = gpytorch.mlls.ExactMarginalLogLikelihood(fm.likelihood, fm)
+        loss = -mll(fm(*fm.train_inputs), fm.train_targets).sum()
+        loss.backward()
+        opt.step()
     elif op == "fantasy_selfcheck":
         # exact fantasy model: its first predictions (default and fast-variance settings) are served from the caches injected by
         # the update formulas; after train()/eval() they are recomputed from its own data - the same numbers
